@@ -109,6 +109,15 @@ def run_case(case):
 
         fs.hook = hook
         for i, op in enumerate(case["ops"]):
+            if op.get("op") == "Evict":
+                # the object leaves the cache behind the library's back (what a gc that no longer counts it as used does)
+                p = w.cache_path(OID[op["c"]])
+                if os.path.exists(p):
+                    os.chmod(p, 0o644)
+                    os.unlink(p)
+                wsj, cj, _o = snap()
+                events.append({"act": {"op": "Evict", "c": op["c"]}, "ws": wsj, "cache": cj, "flags": {}})
+                continue
             # a successful checkout is followed by a plain second checkout of the same target
             for rep in range(2):
                 if rep == 1:
@@ -232,6 +241,45 @@ def directed_cases():
     return cases
 
 
+def evict_cases():
+    """Two checkouts of one process with an object leaving the cache in between (the second one unforced)."""
+    cases, n = [], 950000
+    firsts = [{"kind": "file", "c": "c1"}, {"kind": "tree", "listing": {"a": "c1", "s/b": "c2"}}, {"kind": "tree", "listing": {"a": "c1", "s/b": "c1"}}]
+    seconds = [{"kind": "none"}, {"kind": "file", "c": "c2"}, {"kind": "tree", "listing": {"a": "c2"}}, {"kind": "tree", "listing": {}},
+               {"kind": "tree", "listing": {"a": "c1", "s/b": "c0"}}]
+    for t1 in firsts:
+        for ev in (["c1"], ["c2"], ["c1", "c2"]):
+            for t2 in seconds:
+                for link in ("copy", "hard", "sym"):
+                    for prompt in ("absent", "declines"):
+                        cases.append({"id": n, "link": link, "cls": ["local", "generic"][n % 2], "state": n % 3 != 0,
+                                      "init": {"ws": {"kind": "absent"}, "cache": {"c0": "ok", "c1": "ok", "c2": "ok"}, "dirobjs": []},
+                                      "ops": [{"t": t1, "force": False, "relink": False, "prompt": "absent"}]
+                                             + [{"op": "Evict", "c": c} for c in ev]
+                                             + [{"t": t2, "force": False, "relink": False, "prompt": prompt}]})
+                        n += 1
+    return cases
+
+
+def dangling_cases():
+    """A prior directory that holds a dangling symbolic link next to user files the cache cannot give back."""
+    cases, n = [], 960000
+    priors = [{"a": {"c": "dangling", "lt": "sym"}, "s/b": {"c": "c3", "lt": "copy"}},
+              {"a": {"c": "c3", "lt": "copy"}, "s/b": {"c": "dangling", "lt": "sym"}},
+              {"a": {"c": "dangling", "lt": "sym"}, "s/b": {"c": "c1", "lt": "copy"}}]
+    targets = [{"kind": "tree", "listing": {"a": "c1", "s/b": "c1"}}, {"kind": "tree", "listing": {"s/b": "c2"}},
+               {"kind": "tree", "listing": {}}, {"kind": "none"}, {"kind": "file", "c": "c1"}]
+    for files in priors:
+        for t in targets:
+            for link in ("copy", "hard", "sym"):
+                for force, prompt in ((False, "absent"), (False, "declines"), (True, "absent")):
+                    cases.append({"id": n, "link": link, "cls": ["local", "generic"][n % 2], "state": n % 3 != 0,
+                                  "init": {"ws": {"kind": "dir", "files": files}, "cache": {"c0": "ok", "c1": "ok", "c2": "ok"}, "dirobjs": []},
+                                  "ops": [{"t": t, "force": force, "relink": False, "prompt": prompt}]})
+                    n += 1
+    return cases
+
+
 def execute_and_validate(run, cases):
     with get_context("fork").Pool(16) as pool:
         traces = [t for part in pool.map(_work, [cases[k::64] for k in range(64) if cases[k::64]]) for t in part]
@@ -294,17 +342,20 @@ def _check(run: core.Run, focus, replay=None):
                             required_actions=["Begin", "RemoveDel", "PromptDel", "RemoveNew", "PromptNew", "Create", "End", "Crash"],
                             constants={"keys": ["a", "s/b"], "contents": 3, "link": lt, "prior": "absent/file/dir, copies",
                                        "cache": "every ok/none combination", "targets": 20, "flags": "force x relink x prompt x state"})
+    for lt in (("hard",) if quick else ("copy", "hard", "sym")):
+        validate.run_design(run, "MC_Checkout", f"Checkout_evict_{lt}.cfg", workers=16, required_actions=["Evict"],
+                            constants={"link": lt, "MaxCheckouts": 2, "prior": "absent", "cache": "full, then any eviction sequence"})
     if replay:
         cases = [replay["witness"]["case"]]
     else:
         gen = generate()
-        cases = directed_cases() + make_cases(gen, rng, 2400 if quick else 24000, focus)
+        cases = directed_cases() + evict_cases() + dangling_cases() + make_cases(gen, rng, 2400 if quick else 24000, focus)
     traces = execute_and_validate(run, cases)
     run.extra["rule"] = ("TLC-generated prior workspaces (absent / file / directory, files as copies, hard links or symbolic links), "
                          "cache contents (present, absent, corrupt per object; directory object cached or not), targets (none / file / "
                          "tree) combined with force, relink, prompt (absent / declines / accepts), 3 configured link types, both store "
                          "classes, state on/off; every successful checkout is repeated; the directed corner 'directory object cached, "
-                         "files not' is always included")
+                         "files not' is always included; two-checkout histories of one process with objects evicted from the cache in between")
     run.assumptions += ["reflink is unavailable on this file system (FICLONE -> EOPNOTSUPP): explored only through its fall-back to copy",
                         "prior files that are links are laid out by the harness as links to cache objects (an in-place edit through a "
                         "hard link would edit the cache itself - a user action, not a checkout action)"]
